@@ -26,3 +26,8 @@ class OverwriteClassesWrapper(KDWrapper):
         if torch.is_tensor(cls):
             cls = cls.item()
         return cls
+
+    def getall_class(self):
+        if torch.is_tensor(self.classes):
+            return self.classes.tolist()
+        return list(self.classes)
